@@ -11,6 +11,7 @@ pub mod c05;
 pub mod c06;
 pub mod c07;
 pub mod c08;
+pub mod c09;
 pub mod c11;
 pub mod c13;
 pub mod c14;
@@ -34,7 +35,7 @@ pub struct PropDef {
 }
 
 pub fn all() -> Vec<PropDef> {
-    vec![c01::def(), c02::def(), c03::def(), c04::def(), c05::def(), c06::def(), c07::def(), c08::def(), c11::def(), c13::def(), c14::def(), c15::def(), c16::def()]
+    vec![c01::def(), c02::def(), c03::def(), c04::def(), c05::def(), c06::def(), c07::def(), c08::def(), c09::def(), c11::def(), c13::def(), c14::def(), c15::def(), c16::def()]
 }
 
 pub fn find(id: &str) -> Option<PropDef> {
